@@ -1584,8 +1584,8 @@ SEQ_ALPHA = ['1', '31', '1;31', '38;5;214', '1;38;5;214', '38;5;214;1', '4;58;5;
              '58;2;9;8;7;53', '10', '11;10', '91;39;34', '1;38;2;255;128;64;48;2;100;100;100', '1;3;4;5;7;9;21;31;41;53;58;5;200;97;107',
              '107', '1;107', '106;107;3', '38;2;255;255;255;48;2;0;0;0;58;2;128;128;128',
              '1;;3', ';1', '1;', '31;;1', ';', '38;5;;1', ';;', '4;;']
-SEQ_NONSGR = ['\x1b[2J', '\x1b[H', '\x1b[1;2H', '\x1b[K']
-SEQ_OUT_OF_CLAIM = ['\x1b[38;7;1m', '\x1b[38;5;300m', '\x1b[?1m', '\x1b[1:2m', '\x1b[ 1m']
+SEQ_NONSGR = ['\x1b[2J', '\x1b[H', '\x1b[1;2H', '\x1b[K', '\x1b[>4;2m', '\x1b[?1m', '\x1b[=1;31m', '\x1b[<m']
+SEQ_OUT_OF_CLAIM = ['\x1b[38;7;1m', '\x1b[38;5;300m', '\x1b[1:2m', '\x1b[ 1m']
 
 
 def random_sgr(rng):
